@@ -358,6 +358,7 @@ def run(run, ix, tier):
     # W-R6 (= B-R5 of C07, seed C08-6): the read-back half of the round trip.  repr prints enough digits to identify the
     # number, which only helps if from_str derives the value from the exact digits: for |exponent| > 400 the mantissa
     # of the literal stays exact until the one product with the power of ten
+    check_exponent_text(run, ix)
     from .c07 import check_from_str_exact
     run.rule('W-R6', floor=5, desc='from_str derives the value from the exact digits of the literal (B-R5 of C07)')
     check_from_str_exact(run, ix, rule='W-R6')
@@ -758,3 +759,37 @@ def check_numeral_size_hint(run, ix):
     else:
         run.fail(F('W-R6', rel, 'numeral_python', fix.test, 'the size hint is corrected only above %d bits = %d digits, '
                    'beyond the 4300 digits str() accepts' % (bits, bits * 0.30103)))
+
+
+# ---------------------------------------------------------------------------------------------
+# W-R7  the decimal exponent is an unbounded integer too
+#
+def check_exponent_text(run, ix):
+    """W-R7 (second C08 hunt; repair 8f543a9).  "Decimal exponents of any size": the interpreter refuses str() of an
+    integer with more than sys.get_int_max_str_digits() (4300) digits, and the decimal exponent of ldexp(1, 34*10**4299)
+    has more.  In to_str the exponent reaches the text through `numeral` (which converts in pieces), never through str(),
+    repr() or a % / format conversion (the digit strings already do; L-R2 is the reading side)."""
+    run.rule('W-R7', floor=2, desc='to_str converts the decimal exponent with numeral, not with str()')
+    f = ix.func(LIBMPF, 'to_str')
+    n = 0
+    for r in _walk_own(f.node):
+        if not (isinstance(r, ast.Return) and r.value is not None and 'exponent' in norm(r.value)):
+            continue
+        n += 1
+        bad = None
+        for c in ast.walk(r.value):
+            if isinstance(c, ast.Call) and norm(c.func) in ('str', 'repr', 'format') and c.args and 'exponent' in norm(c.args[0]):
+                bad = c
+            if isinstance(c, ast.BinOp) and isinstance(c.op, ast.Mod) and isinstance(c.left, ast.Constant) and \
+                    isinstance(c.left.value, str) and 'exponent' in norm(c.right):
+                bad = c
+            if isinstance(c, ast.JoinedStr) and 'exponent' in norm(c):
+                bad = c
+        if bad is None:
+            run.ok('W-R7', '`%s`' % norm(r, 70))
+        else:
+            run.fail(F('W-R7', LIBMPF, 'to_str', r, 'the decimal exponent goes through `%s`: beyond 4300 digits the interpreter '
+                       'raises ValueError, so str(), repr() and nstr() of ldexp(mpf(1), 34*10**4299) fail although the '
+                       'literal with such an exponent parses' % norm(bad, 30)))
+    if n < 2:
+        raise AnalysisError('to_str: returns with the exponent not found')
